@@ -114,11 +114,7 @@ example : Path (lockGraph [⟨0, 0, 1, 0⟩, ⟨1, 1, 0, 0⟩]) 0 0 :=
 
 /-- The (function, field) pairs of the current source that touch a guarded field of `Session` without its mutex
 outside construction (finding C20-F5).  A pair not listed here fails `session_fields_guarded_except_known`. -/
-def knownSessionSites : List (String × String) := [
-  ("Session.CleanDatabase", "invalidTorrentIDs"),
-  ("Session.loadExistingTorrent", "availablePorts"),
-  ("rpcHandler.handleMoveTorrent", "torrents")
-]
+def knownSessionSites : List (String × String) := []
 
 def sessNamed (a : SessAcc) : String × String := (sessFnNames.getD a.fn "?", sessFieldNames.getD a.field "?")
 
